@@ -54,6 +54,7 @@ HSM = 5.0 / 256.0       # smoothing length: radius 2h = 5/128, positions k/64
 GRID = 64
 STAGE_RE = re.compile(r'^stage(\d+)$')
 WORKER_BUDGET = 3 * 3600
+RETRIED = []
 
 # documented pairings: integrator -> stepper classes it is used with in the
 # schemes / examples / tests of the repository
@@ -743,7 +744,8 @@ def worker(job):
                     r['error'] = traceback.format_exc()[-1500:]
                 results.append(r)
             return {'config': config, 'results': results, 'secs': time.time() - t0}
-        for case in cases:
+        for ci, case in enumerate(cases):
+            print('case %d: %s' % (ci, json.dumps(case)), flush=True)
             r = {'case': case}
             try:
                 out = run_case(config, case, mod)
@@ -1246,6 +1248,15 @@ def run_jobs(jobs, nproc):
         time.sleep(0.2)
     outs = []
     for i, (jf, of, lf) in enumerate(files):
+        if (rcs.get(i) != 0 or not os.path.exists(of)) and rcs.get(i, 0) < 0:
+            # killed by a signal (seen once, -11, on a machine with load > 100 and
+            # not reproducible with the same input): run it once more, alone
+            RETRIED.append('%s: worker died with signal %d, re-run'
+                           % (config_id(jobs[i][0]), -rcs[i]))
+            p = subprocess.run([sys.executable, '-X', 'faulthandler', os.path.abspath(__file__),
+                                '--worker', jf, of], stdout=open(lf, 'a'),
+                               stderr=subprocess.STDOUT, cwd=work)
+            rcs[i] = p.returncode
         if rcs.get(i) != 0 or not os.path.exists(of):
             tail = open(lf).read()[-3000:] if os.path.exists(lf) else ''
             outs.append({'config': jobs[i][0], 'results': [],
@@ -1288,6 +1299,74 @@ def corpus_configs(tab):
     return out
 
 
+def build_jobs(tier, seed, work, tab, R):
+    rng = random.Random(seed * 104729 + 4)
+    quick = tier == 'quick'
+    shipped = sorted(PAIRING)
+    missing = [q for q in tab['integrators'] if q not in PAIRING]
+    if missing:
+        # a new Integrator subclass in the tree: it is still run, with the
+        # generic tracer for the stages its program calls
+        for q in missing:
+            R.note('no documented stepper pairing for %s: generic tracer used' % q)
+    for q, ss in PAIRING.items():
+        if q not in tab['integrators']:
+            R.disagree({'integrator': q}, 'present', 'absent', 'integrator class vanished')
+        for s in ss:
+            if s not in tab['steppers']:
+                R.disagree({'stepper': s}, 'present', 'absent', 'stepper class vanished')
+    if quick:
+        core = ['pysph.sph.integrator.PECIntegrator', 'pysph.sph.wc.gtvf.GTVFIntegrator',
+                'pysph.sph.integrator.PEFRLIntegrator', 'pysph.sph.isph.sisph.SISPHIntegrator',
+                'pysph.sph.integrator.EulerIntegrator']
+        rest = [q for q in shipped if q not in core and q in tab['integrators']]
+        pick = core + rng.sample(rest, 2)
+        ngen, ncases, variants = 4, 8, 1
+    else:
+        pick = [q for q in shipped if q in tab['integrators']]
+        ngen, ncases, variants = 28, 14, 3
+    jobs = []
+    for config, cases in corpus_configs(tab):
+        jobs.append((config, cases, work))
+    for q in pick:
+        for v in range(variants):
+            vv = rng.randrange(6) if quick else v + rng.randrange(2) * 3
+            cfg = shipped_config(q, tab, rng, vv)
+            prog = program_of(cfg, tab)
+            jobs.append((cfg, [gen_case(rng, cfg, prog, k) for k in range(ncases)], work))
+    for q in missing:
+        prog = tab['programs'][tab['integrators'][q]][0]
+        ms = sorted({'initialize' if c[0] == 'I' else 'stage%d' % c[1]
+                     for c in prog if c[0] in 'IS'}, key=mid_of)
+        cfg = {'integrator': {'kind': 'shipped', 'cls': q},
+               'arrays': [{'name': 'fluid', 'stepper': {'cls': 'TrGeneric', 'methods': ms,
+                                                        'hooks': []}}],
+               'nev': 1 + max([c[1] for c in prog if c[0] == 'A'] + [0])}
+        jobs.append((cfg, [gen_case(rng, cfg, prog, k) for k in range(ncases)], work))
+    for g in range(ngen):
+        cfg = generated_config(rng, g, allow_error=(not quick and g % 9 == 8))
+        prog = program_of(cfg, tab)
+        n = 1 if (not quick and g % 9 == 8) else ncases
+        jobs.append((cfg, [gen_case(rng, cfg, prog, k) for k in range(n)], work))
+    allpairs = []
+    for q in sorted(PAIRING):
+        if q not in tab['integrators']:
+            continue
+        prog = tab['programs'][tab['integrators'][q]][0]
+        nev = 1 + max([c[1] for c in prog if c[0] == 'A'] + [0])
+        for sq in PAIRING[q]:
+            if sq in tab['steppers'] and not tab['steppers'][sq][1]:
+                allpairs.append((q, sq, nev))
+    if quick:
+        npairs = [p for p in allpairs if p[:2] == (
+            'pysph.sph.integrator.PECIntegrator', 'pysph.sph.integrator_step.WCSPHStep')]
+        npairs += rng.sample([p for p in allpairs if p not in npairs], 2)
+    else:
+        npairs = allpairs
+    jobs += numeric_jobs(npairs, rng, 6 if quick else 12, work)
+    return jobs, pick
+
+
 def main():
     a = H.args()
     R = H.Result(
@@ -1324,76 +1403,16 @@ def main():
         sys.exit(1 if R.d['property_failures'] else 0)
 
     gen_table = read_gen_table(R, tab)
-    rng = random.Random(a.seed * 104729 + 4)
-    quick = a.tier == 'quick'
+    jobs, pick = build_jobs(a.tier, a.seed, a.work, tab, R)
     shipped = sorted(PAIRING)
-    missing = [q for q in tab['integrators'] if q not in PAIRING]
-    if missing:
-        # a new Integrator subclass in the tree: it is still run, with the
-        # generic tracer for the stages its program calls
-        for q in missing:
-            R.note('no documented stepper pairing for %s: generic tracer used' % q)
-    for q, ss in PAIRING.items():
-        if q not in tab['integrators']:
-            R.disagree({'integrator': q}, 'present', 'absent', 'integrator class vanished')
-        for s in ss:
-            if s not in tab['steppers']:
-                R.disagree({'stepper': s}, 'present', 'absent', 'stepper class vanished')
-    if quick:
-        core = ['pysph.sph.integrator.PECIntegrator', 'pysph.sph.wc.gtvf.GTVFIntegrator',
-                'pysph.sph.integrator.PEFRLIntegrator', 'pysph.sph.isph.sisph.SISPHIntegrator',
-                'pysph.sph.integrator.EulerIntegrator']
-        rest = [q for q in shipped if q not in core and q in tab['integrators']]
-        pick = core + rng.sample(rest, 2)
-        ngen, ncases, variants = 4, 8, 1
-    else:
-        pick = [q for q in shipped if q in tab['integrators']]
-        ngen, ncases, variants = 28, 14, 3
-    jobs = []
-    for config, cases in corpus_configs(tab):
-        jobs.append((config, cases, a.work))
-    for q in pick:
-        for v in range(variants):
-            vv = rng.randrange(6) if quick else v + rng.randrange(2) * 3
-            cfg = shipped_config(q, tab, rng, vv)
-            prog = program_of(cfg, tab)
-            jobs.append((cfg, [gen_case(rng, cfg, prog, k) for k in range(ncases)], a.work))
-    for q in missing:
-        prog = tab['programs'][tab['integrators'][q]][0]
-        ms = sorted({'initialize' if c[0] == 'I' else 'stage%d' % c[1]
-                     for c in prog if c[0] in 'IS'}, key=mid_of)
-        cfg = {'integrator': {'kind': 'shipped', 'cls': q},
-               'arrays': [{'name': 'fluid', 'stepper': {'cls': 'TrGeneric', 'methods': ms,
-                                                        'hooks': []}}],
-               'nev': 1 + max([c[1] for c in prog if c[0] == 'A'] + [0])}
-        jobs.append((cfg, [gen_case(rng, cfg, prog, k) for k in range(ncases)], a.work))
-    for g in range(ngen):
-        cfg = generated_config(rng, g, allow_error=(not quick and g % 9 == 8))
-        prog = program_of(cfg, tab)
-        n = 1 if (not quick and g % 9 == 8) else ncases
-        jobs.append((cfg, [gen_case(rng, cfg, prog, k) for k in range(n)], a.work))
-    allpairs = []
-    for q in sorted(PAIRING):
-        if q not in tab['integrators']:
-            continue
-        prog = tab['programs'][tab['integrators'][q]][0]
-        nev = 1 + max([c[1] for c in prog if c[0] == 'A'] + [0])
-        for sq in PAIRING[q]:
-            if sq in tab['steppers'] and not tab['steppers'][sq][1]:
-                allpairs.append((q, sq, nev))
-    if quick:
-        npairs = [p for p in allpairs if p[:2] == (
-            'pysph.sph.integrator.PECIntegrator', 'pysph.sph.integrator_step.WCSPHStep')]
-        npairs += rng.sample([p for p in allpairs if p not in npairs], 2)
-    else:
-        npairs = allpairs
-    jobs += numeric_jobs(npairs, rng, 6 if quick else 12, a.work)
     R.count('compiled-configurations', len(jobs))
     nproc = min(len(jobs), max(2, min(12, (os.cpu_count() or 4) - 2)))
     t0 = time.time()
     outs = run_jobs(jobs, nproc)
     R.note('%d configurations compiled and run in %d processes, %.0f s'
            % (len(jobs), nproc, time.time() - t0))
+    for msg in RETRIED:
+        R.note(msg)
     evaluate(outs, tab, R, gen_table)
     if (a.broken or R.d['disagreements']) and R.d['property_failures']:
         R.d['search'] = {'skipped': 'failing inputs already found by the regular run',
